@@ -206,6 +206,9 @@ def Store.before (s : Store) (h : Int) : Option LightBlock :=
 structure Evidence where
   conflicting : Hash
   commonHeight : Int
+  totalPower : Int                 -- TotalVotingPower
+  timestamp : Int                  -- Timestamp
+  byzantine : List (Nat × Nat)     -- ByzantineValidators as (id, power), in collection order
 deriving Repr, DecidableEq, Inhabited
 
 structure Client where
@@ -366,11 +369,38 @@ def conflictingHeaderIsInvalid (trusted conflicting : Header) : Bool :=
   trusted.consHash ≠ conflicting.consHash || trusted.appHash ≠ conflicting.appHash ||
   trusted.resHash ≠ conflicting.resHash
 
-/-- `newLightClientAttackEvidence` (conflicting block and common height only) -/
+def ValSet.totalPower (v : ValSet) : Int := (v.vals.map fun p => (p.2 : Int)).sum
+
+def ValSet.byAddr (v : ValSet) (addr : Bytes) : Option (Nat × Nat) :=
+  v.vals.find? fun p => [UInt8.ofNat p.1] == addr
+
+/-- `GetByzantineValidators(commonVals, trusted)` before the final sort by voting power (the order
+is not modelled; the driver prints the set). Lunatic: the members of the common set with a for-block
+slot in the conflicting commit. Equivocation (same round): the validators of the conflicting block
+whose slot is non-absent in both commits (the code indexes the trusted commit with the conflicting
+commit's positions; both commits passed verification against sets of one hash, `zip` = same length).
+Amnesia (different rounds): none. -/
+def byzantineValidators (conflicted trusted common : LightBlock) : List (Nat × Nat) :=
+  if conflictingHeaderIsInvalid trusted.hdr conflicted.hdr then
+    conflicted.commit.sigs.filterMap fun s =>
+      if s.flag = CommitVerify.flagCommit then common.vals.byAddr s.addr else none
+  else if trusted.commit.round = conflicted.commit.round then
+    (conflicted.commit.sigs.zip trusted.commit.sigs).filterMap fun (a, b) =>
+      if a.flag = CommitVerify.flagAbsent then none
+      else if b.flag = CommitVerify.flagAbsent then none
+      else conflicted.vals.byAddr a.addr
+  else []
+
+/-- `newLightClientAttackEvidence`: for a lunatic attack (the conflicting header's validator / app /
+consensus / results hashes differ from the trusted header's) height, time and total power are the
+COMMON block's; for equivocation and amnesia they are the TRUSTED block's at the attack height -/
 def mkEvidence (conflicted trusted common : LightBlock) : Evidence :=
+  let lunatic := conflictingHeaderIsInvalid trusted.hdr conflicted.hdr
   { conflicting := conflicted.hash,
-    commonHeight := if conflictingHeaderIsInvalid trusted.hdr conflicted.hdr then common.height
-                    else trusted.height }
+    commonHeight := if lunatic then common.height else trusted.height,
+    totalPower := if lunatic then common.vals.totalPower else trusted.vals.totalPower,
+    timestamp := if lunatic then common.time else trusted.time,
+    byzantine := byzantineValidators conflicted trusted common }
 
 /-- the `for idx, traceBlock := range trace` loop of `examineConflictingHeaderAgainstTrace`;
 `none` = any of its error returns -/
